@@ -3,9 +3,12 @@ package main
 
 import (
 	"context"
+	"encoding/json"
 	"fmt"
 	"os"
+	"path/filepath"
 	"runtime/pprof"
+	"sort"
 	"strings"
 	"time"
 
@@ -367,8 +370,22 @@ func main() {
 		dispatch(c, or, &sc, "replay")
 		c.Finish(rule)
 	}
+	// corpus first: the minimised failing scenarios of earlier runs (registered findings and repaired defects)
+	if files, _ := filepath.Glob("/verif/corpus/C16/*.json"); len(files) > 0 {
+		sort.Strings(files)
+		for _, f := range files {
+			var w struct {
+				Replay Scenario `json:"replay"`
+			}
+			b, err := os.ReadFile(f)
+			hx.Must(err)
+			hx.Must(json.Unmarshal(b, &w))
+			c.Hist["corpus"]++
+			dispatch(c, or, &w.Replay, "corpus "+filepath.Base(f))
+		}
+	}
 	g := hx.NewRNG(c.Seed)
-	short, migs, loops := 12, 14, 2
+	short, migs, loops := 10, 14, 2
 	if c.Thorough() {
 		short, migs, loops = 120, 150, 12
 	}
@@ -386,7 +403,7 @@ func main() {
 	t0 = time.Now()
 	for i := 0; i < migs; i++ {
 		for _, ns := range []bool{false, true} {
-			if ns && i%8 != 0 { // the migration copies legacy history logs only: few new-state runs
+			if ns && i%3 != 0 { // the migration's history stages are no-ops on a new-state database: fewer runs
 				continue
 			}
 			dispatch(c, or, genMigrate(g.Fork(5000+uint64(i)), ns), fmt.Sprintf("migrate %d", i))
